@@ -22,12 +22,12 @@ theorem allocate_commits_inside_pool_lock :
     underW "nat.Manager.AllocateNAT" "c" "m.natLogger.LogAllocation" "m.poolMu" = true := by decide
 
 /-- DeallocateNAT is one section of the pool lock: table delete, kernel map delete, purge of the subscriber's kernel
-    session state, slot accounting and the release record all happen inside it, and the allocation table is only
-    ever taken exclusively (no unlocked or read-locked pre-check whose answer could go stale) -/
+    session state, slot accounting and the release record all happen inside it, and the allocation table is never
+    looked at outside the pool lock (no unlocked pre-check whose answer could go stale: every read and write of
+    `m.allocations` and `m.pool` is inside the section, whatever it does with the inner `allocationMu`) -/
 theorem deallocate_is_one_section_of_the_pool_lock :
     known "nat.Manager.DeallocateNAT" = true ∧
     acqOf "nat.Manager.DeallocateNAT" "m.poolMu" = ["W"] ∧ deferredUnlock "nat.Manager.DeallocateNAT" "m.poolMu" = true ∧
-    acqOf "nat.Manager.DeallocateNAT" "m.allocationMu" = ["W"] ∧
     underW "nat.Manager.DeallocateNAT" "w" "m.allocations" "m.poolMu" = true ∧
     underW "nat.Manager.DeallocateNAT" "c" "m.subscriberNAT.Delete" "m.poolMu" = true ∧
     underW "nat.Manager.DeallocateNAT" "c" "m.purgeSubscriberState" "m.poolMu" = true ∧
